@@ -571,6 +571,102 @@ Proof.
   - intros E. apply Nat.eqb_eq in E. subst. reflexivity.
 Qed.
 
+(* ------------------------------------------------------------------ take / drop (one amount) *)
+
+Lemma chain_firstn {A} (r : A -> A -> bool) k l : chain r l = true -> chain r (firstn k l) = true.
+Proof.
+  revert k; induction l as [|a l IH]; intros k C; destruct k; auto.
+  destruct l as [|b l]; [destruct k; auto|].
+  rewrite chain_cons in C. apply andb_prop in C as [C1 C2].
+  destruct k; auto. specialize (IH (S k) C2).
+  change (firstn (S (S k)) (a :: b :: l)) with (a :: b :: firstn k l).
+  change (firstn (S k) (b :: l)) with (b :: firstn k l) in IH.
+  rewrite chain_cons, C1. exact IH.
+Qed.
+Lemma chain_skipn {A} (r : A -> A -> bool) k l : chain r l = true -> chain r (skipn k l) = true.
+Proof.
+  revert l; induction k; intros l C; auto. destruct l; auto. simpl. apply IHk. eapply chain_tail; eauto.
+Qed.
+Lemma chunk_firstn {A} m n k (d : list A) : (k <= n)%nat ->
+  chunk m k (firstn (k * m) d) = firstn k (chunk m n d).
+Proof.
+  revert n d; induction k; intros n d H; auto.
+  destruct n; [lia|].
+  replace (S k * m)%nat with (m + k * m)%nat by (simpl; lia).
+  cbn [chunk]. cbn [firstn]. rewrite firstn_firstn, Nat.min_l by lia.
+  rewrite <- firstn_skipn_comm. f_equal. apply IHk. lia.
+Qed.
+Lemma skipn_plus {A} x y (l : list A) : skipn x (skipn y l) = skipn (y + x) l.
+Proof. revert l; induction y; intros l; simpl; auto. destruct l; auto. destruct x; reflexivity. Qed.
+Lemma chunk_skipn {A} m n k (d : list A) : (k <= n)%nat ->
+  chunk m (n - k) (skipn (k * m) d) = skipn k (chunk m n d).
+Proof.
+  revert n d; induction k; intros n d H.
+  - rewrite Nat.sub_0_r. reflexivity.
+  - destruct n; [lia|].
+    replace (S n - S k)%nat with (n - k)%nat by lia.
+    replace (S k * m)%nat with (m + k * m)%nat by (simpl; lia).
+    cbn [chunk]. cbn [skipn]. rewrite <- skipn_plus. apply IHk. lia.
+Qed.
+
+Lemma vrows_prefix v n s j : shape_of v = n :: s -> (j <= n)%nat ->
+  vrows (vdata_map (fun A d => firstn (j * shape_prod s) d) (j :: s) v) = firstn j (vrows v).
+Proof.
+  intros S H. destruct v; simpl in *; subst; rewrite (chunk_firstn _ n) by exact H;
+    rewrite firstn_map; reflexivity.
+Qed.
+Lemma vrows_suffix v n s j : shape_of v = n :: s -> (j <= n)%nat ->
+  vrows (vdata_map (fun A d => skipn ((n - j) * shape_prod s) d) (j :: s) v) = skipn (n - j) (vrows v).
+Proof.
+  intros S H.
+  assert (X : forall A (d : list A), chunk (shape_prod s) j (skipn ((n - j) * shape_prod s) d)
+                                     = skipn (n - j) (chunk (shape_prod s) n d)).
+  { intros A d. pose proof (chunk_skipn (shape_prod s) n (n - j) d) as Y.
+    replace (n - (n - j))%nat with j in Y by lia. apply Y. lia. }
+  destruct v; simpl in *; subst; rewrite X, skipn_map; reflexivity.
+Qed.
+
+Lemma prefix_wf m n s j : wf m -> shape_of (mv_v m) = n :: s -> (j <= n)%nat -> wf (p_prefix j m).
+Proof.
+  unfold wf, wfb, p_prefix. destruct m as [v f]; simpl. intros W S H. rewrite S. simpl.
+  apply andb_prop in W as [W1 W2]. apply andb_true_intro; split.
+  - apply vdata_map_wf; auto.
+    + rewrite S. intros A d L. rewrite firstn_length. simpl in *.
+      assert (j * shape_prod s <= n * shape_prod s)%nat by (apply Nat.mul_le_mono_r; exact H). lia.
+    + intros A p d X. apply forallb_firstn, X.
+  - apply flags_okb_iff in W2. destruct W2 as (B & U & D). apply flags_okb_iff. repeat split; intros X.
+    + apply vdata_map_bool; auto. intros A p d Y. apply forallb_firstn, Y.
+    + unfold up_ok. rewrite (vrows_prefix v n s j S H). apply chain_firstn. apply U, X.
+    + unfold down_ok. rewrite (vrows_prefix v n s j S H). apply chain_firstn. apply D, X.
+Qed.
+Lemma suffix_wf m n s j : wf m -> shape_of (mv_v m) = n :: s -> (j <= n)%nat -> wf (p_suffix j m).
+Proof.
+  unfold wf, wfb, p_suffix. destruct m as [v f]; simpl. intros W S H. rewrite S. simpl.
+  apply andb_prop in W as [W1 W2]. apply andb_true_intro; split.
+  - apply vdata_map_wf; auto.
+    + rewrite S. intros A d L. rewrite skipn_length. simpl in *. rewrite L.
+      rewrite <- Nat.mul_sub_distr_r. replace (n - (n - j))%nat with j by lia. reflexivity.
+    + intros A p d X. apply forallb_skipn, X.
+  - apply flags_okb_iff in W2. destruct W2 as (B & U & D). apply flags_okb_iff. repeat split; intros X.
+    + apply vdata_map_bool; auto. intros A p d Y. apply forallb_skipn, Y.
+    + unfold up_ok. rewrite (vrows_suffix v n s j S H). apply chain_skipn. apply U, X.
+    + unfold down_ok. rewrite (vrows_suffix v n s j S H). apply chain_skipn. apply D, X.
+Qed.
+
+Lemma take1_wf z m r : wf m -> p_take1 z m = Ok r -> wf r.
+Proof.
+  unfold p_take1. intros W. destruct (shape_of (mv_v m)) as [|n s] eqn:S; try discriminate.
+  destruct (Nat.ltb_spec n (Z.to_nat (Z.abs z))); try discriminate.
+  intros E; inversion E; subst; clear E.
+  destruct (0 <=? z)%Z; [eapply prefix_wf | eapply suffix_wf]; eauto.
+Qed.
+Lemma drop1_wf z m r : wf m -> p_drop1 z m = Ok r -> wf r.
+Proof.
+  unfold p_drop1. intros W. destruct (shape_of (mv_v m)) as [|n s] eqn:S; try discriminate.
+  intros E; inversion E; subst; clear E.
+  destruct (0 <=? z)%Z; [eapply suffix_wf | eapply prefix_wf]; eauto; lia.
+Qed.
+
 (* ------------------------------------------------------------------ wf_preserved *)
 
 (** the primitives under the theorem *)
@@ -598,6 +694,10 @@ Proof.
   - destruct args as [|a [|b [|? ?]]]; try discriminate. inversion F as [|? ? Wa F']; subst.
     inversion F' as [|? ? Wb _]; subst.
     destruct (p_couple_same a b) eqn:X; inversion E; subst. constructor; auto. exact (couple_wf a b _ Wa Wb X).
+  - destruct args as [|a [|? ?]]; try discriminate. inversion F; subst.
+    destruct (p_take1 z a) eqn:X; inversion E; subst. constructor; auto. eapply take1_wf; eauto.
+  - destruct args as [|a [|? ?]]; try discriminate. inversion F; subst.
+    destruct (p_drop1 z a) eqn:X; inversion E; subst. constructor; auto. eapply drop1_wf; eauto.
 Qed.
 
 (** the flag algebra, collected *)
@@ -824,3 +924,75 @@ Lemma select_first_index_rule_refuted :
   rule_flags true RSelect [MV (VNum [3%nat] [4607182418800017408; 0; 13830554455654793216]%N) fl_none;
                            MV (VByte [3%nat] [10; 20; 30]%N) (FL false true false)] out = Some fl_none.
 Proof. repeat split; vm_compute; reflexivity. Qed.
+
+(* ------------------------------------------------------------------ keep / rotate *)
+
+(** Any result whose rows are the rows of [b] at non-decreasing in-bounds positions (a
+    subsequence with repetitions: take, drop, keep, select with ascending non-negative indices)
+    may keep both sortedness marks of [b]; the boolean mark may stay when it holds of the result. *)
+Theorem monotone_selection_keeps_marks b out fb bo (is : list nat) d :
+  flags_okb b fb = true ->
+  vrows out = map (fun i => nth i (vrows b) d) is ->
+  Forall (fun i => (i < length (vrows b))%nat) is ->
+  chain Nat.leb is = true ->
+  (bo = true -> bool_ok out = true) ->
+  flags_okb out (FL bo (f_up fb) (f_down fb)) = true.
+Proof.
+  intros W R F C B. apply flags_okb_iff in W. destruct W as (_ & U & D).
+  apply flags_okb_iff. simpl. repeat split; auto; intros H; unfold up_ok, down_ok in *; rewrite R.
+  - apply (select_chain_asc le_b d le_refl le_trans); auto.
+  - apply (select_chain_asc ge_b d ge_refl ge_trans); auto.
+Qed.
+
+(** the row positions keep selects: position [i] repeated [c_i] times, in order
+    (keep_list, dyadic/mod.rs:781-850; a scalar count is the list of equal counts) *)
+Fixpoint kidx (i : nat) (cs : list nat) : list nat :=
+  match cs with [] => [] | c :: t => repeat i c ++ kidx (S i) t end.
+
+Lemma chain_app_le l1 l2 : chain Nat.leb l1 = true -> chain Nat.leb l2 = true ->
+  (forall x y, In x l1 -> In y l2 -> (x <= y)%nat) -> chain Nat.leb (l1 ++ l2) = true.
+Proof.
+  induction l1 as [|a l1 IH]; intros C1 C2 H; auto.
+  destruct l1 as [|b l1].
+  - change ([a] ++ l2) with (a :: l2). destruct l2 as [|y l2]; auto.
+    rewrite chain_cons, C2, andb_true_r. apply Nat.leb_le, H; simpl; auto.
+  - change ((a :: b :: l1) ++ l2) with (a :: (b :: l1) ++ l2). simpl app.
+    rewrite chain_cons in *. apply andb_prop in C1 as [X Y]. rewrite X. simpl.
+    apply IH; auto. intros x y Ix Iy. apply H; simpl in *; auto.
+Qed.
+Lemma repeat_chain i c : chain Nat.leb (repeat i c) = true.
+Proof.
+  induction c; auto. destruct c; auto. simpl repeat in *. rewrite chain_cons, IHc, Nat.leb_refl. reflexivity.
+Qed.
+Lemma kidx_bounds cs : forall i x, In x (kidx i cs) -> (i <= x < i + length cs)%nat.
+Proof.
+  induction cs as [|c cs IH]; intros i x H; simpl in H; [tauto|].
+  apply in_app_or in H as [H|H].
+  - apply repeat_spec in H. subst. simpl. lia.
+  - apply IH in H. simpl. lia.
+Qed.
+Lemma kidx_chain cs : forall i, chain Nat.leb (kidx i cs) = true.
+Proof.
+  induction cs as [|c cs IH]; intros i; auto. simpl. apply chain_app_le; auto.
+  - apply repeat_chain.
+  - intros x y Ix Iy. apply repeat_spec in Ix. subst. apply kidx_bounds in Iy. lia.
+Qed.
+
+(** keep with natural counts keeps the sortedness marks (the side condition of keep_list's
+    take-and-or-back and of keep_scalar_integer leaving the metadata alone) *)
+Theorem keep_marks_sound b out fb bo (cs : list nat) d :
+  flags_okb b fb = true -> length cs = length (vrows b) ->
+  vrows out = map (fun i => nth i (vrows b) d) (kidx 0 cs) ->
+  (bo = true -> bool_ok out = true) ->
+  flags_okb out (FL bo (f_up fb) (f_down fb)) = true.
+Proof.
+  intros W L R B. apply (monotone_selection_keeps_marks b out fb bo (kidx 0 cs) d); auto.
+  - apply Forall_forall. intros x I. apply kidx_bounds in I. lia.
+  - apply kidx_chain.
+Qed.
+
+(** a primitive that clears the sortedness marks and moves elements around (rotate, first, last,
+    deshape, transpose of rank >= 2) owes only the boolean mark *)
+Theorem cleared_marks_sound v v' f : (bool_ok v = true -> bool_ok v' = true) ->
+  flags_okb v f = true -> flags_okb v' (clear_sorted f) = true.
+Proof. exact (flags_cleared_ok v v' f). Qed.
